@@ -32,10 +32,22 @@ RULE = ("finer: the two build_finer_grid closures (levyprocess.py, coupling/help
         "six dates without any jump, last jump exactly epsilon / half epsilon before the maturity; two equal consecutive dates (outside the "
         "quantifier: recorded whether rejected, model compared). Every simulated row is classified by the domain predicate of its "
         "equivalence theorem (in / out of domain, both well populated) and the implementation is checked against both sides. "
-        "non-trivial = at least one jump (sim) / one inserted point or >= 2 jump times (finer); distinct = distinct full script")
+        "history: operation histories on ONE live object of each of the five simulators (direct, CTMC, coupled, copula with one date, "
+        "coupled copula): `initialisation(product, eps)` once, then 2..4 batches `pre_computation(n, product')` (n = 1..3, one or no path "
+        "simulated) with DIFFERENT stub products - maximum step: maturities below / equal / above epsilon in every order (directed: all 9 "
+        "ordered pairs, with and without a path in between, one and two dates; three batches long / short / longer), fixed dates / jump "
+        "times: longer, shorter, same maturity with more / fewer dates, the other payoff-dates type where the mode ignores it - and "
+        "re-initialisations in every ordered pair of modes / with another epsilon (coupled objects: at their level). Every returned path is "
+        "judged by the oracles and the model comparison of `sim` for the product and the prescribed variates of ITS batch and compared with "
+        "the path of a freshly constructed object (run_sim) for the same product and variates. Legal sequences were established on the "
+        "unchanged tree: every such history returns exactly the fresh object's path. "
+        "non-trivial = at least one jump (sim) / one inserted point or >= 2 jump times (finer) / >= 2 steps, one judged path and one jump "
+        "(history); distinct = distinct full script")
 NOT_PROVED = ["np.sort of the uniform offsets and np.insert / np.cumsum / np.diff kernels are trusted (the model takes sorted offsets)",
               "the scaling sqrt(dt)*sigma (sqrt(dt) * D @ Z for the copula simulators) of the Brownian increments is an input of the model "
               "(compared at 2^-40); only the running-sum assembly is proved",
+              "histories: `copy.deepcopy` of a process between batches (the multilevel engine copies the coupling process per level) and "
+              "`cp.simulate_one_path()` of the coupled objects (the bare fine process, same classes as the CTMC / copula simulators) are not scripted",
               "the coarse state increments of the coupled simulators are inputs (their law is C03's subject); the non-coupled Levy-copula "
               "CTMC simulator is exercised for one product date only (it raises for more, recorded)",
               "the full-strength running sums / step cap are FALSE of the code (negation theorems running_sums_counterexample, "
@@ -46,6 +58,10 @@ NOT_PROVED = ["np.sort of the uniform offsets and np.insert / np.cumsum / np.dif
               "coupled copula output is tied to these 1-d statements row by row (copula_fixed_coordinate, copula_jump_times_is_ctmc, "
               "copula_maxstep_is_single, copula_rows_iff, copula_jump_times_rows_iff)"]
 ASSUMPTIONS = ["product dates strictly increasing from 0; uniforms distinct and strictly inside (0,1); epsilon > 0",
+               "histories: the simulation mode and epsilon are those of the last `initialisation` (both engines initialise once per product and "
+               "call `pre_computation` per batch); a path is simulated only after a `pre_computation` of at least that many paths; that a live "
+               "object returns the SAME path as a fresh one is reported as a broken tie (c15.history.fresh), the property itself is judged by "
+               "the oracles on the live object's path",
                "inputs are dyadic so that every float operation on times and jump values is exact (diffusion values compared at 2^-40)"]
 TRUSTED = ["replacement of numpy.random.normal/random_sample/uniform, of CouplingProcessLevyCopula._uniform and of the bound methods nb_jump_dt / "
            "jump_increment / _sampling / sampling.sample / coupling_state / __coupling_state from the harness"]
@@ -355,6 +371,12 @@ def run_sim(desc):
         normals = list(sc.normals)
         if warm and mode == "fixed":          # both paths' normals were drawn path by path in pre_computation: keep the second half
             normals = normals[len(normals) // 2:]
+    return make_out(desc, path, sig, normals, dates_used, g if sim != "direct" else None, coarse_log)
+
+
+def make_out(desc, path, sig, normals, dates_used, g, coarse_log):
+    """what the probes read of one simulated path: times, component rows, the jump sizes actually used per product interval"""
+    sim = desc["sim"]
     times = np.asarray(path.jump_times if not hasattr(path.jump_times, "grid") else path.jump_times.grid, float)
     out = dict(times=[float(x) for x in np.asarray(times).reshape(-1)], sig=sig, normals=normals, dates=dates_used)
     def rows2d(a):
@@ -385,6 +407,163 @@ def run_sim(desc):
             it = iter(coarse_log)
             out["sizes"] = [fine, [[next(it) for _ in iv] for iv in desc["incs"]]]
     return out
+
+
+# --------------------------------------------------------------------------------------------- one live object, many operations
+STATIC_KEYS = ("sim", "family", "params", "h", "dim", "copula", "level")
+
+
+class Live:
+    """ONE simulator object (the same five kinds as run_sim) driven through a history of `initialisation` / `pre_computation` /
+    simulate operations with different products.  Every step carries its own product (dates, payoff-dates type) and its own
+    prescribed variates; what a step returns must be the path of ITS product from ITS variates, whatever happened before on the
+    object.  Legal sequences (verified on the unchanged tree, see probe_history): `initialisation(product, eps)` chooses the
+    simulation mode and epsilon; any number of `pre_computation(n, product')` with other products may follow without a new
+    initialisation (both engines do so per batch) - the unchanged code re-reads times, maturity, sqrt(dt), the pre-drawn deques and
+    the refinement closure from product' each time; any number of paths <= n may be simulated after each of them."""
+
+    def __init__(self, static, sc):
+        self.s, self.sc = static, sc
+        self.counts, self.flat, self.coarse_log = iter(()), iter(()), []
+        self.started = False
+        sim = static["sim"]
+        dim = static.get("dim", 2)
+        if sim in ("copula", "ccopula"):
+            model = zoo.make_copula_model([zoo.make_levy(static["family"], static["params"]) for _ in range(dim)],
+                                          zoo.make_copula(static.get("copula", "independent")))
+        else:
+            model = zoo.make_levy(static["family"], static["params"])
+        self.model = model
+        nb = lambda dt: next(self.counts)
+        tuples = lambda size: [tuple(int(v) for v in next(self.flat)) for _ in range(size)]
+        self.p = self.cp = None
+        if sim == "direct":
+            self.p = LevyProcess(model)
+            self.p.nb_jump_dt = nb
+            self.p.model.jump_increment = lambda n: np.array([next(self.flat) for _ in range(n)], float)
+            self.g = None
+        elif sim == "copula":
+            self.g = CTMCUniformGrid.create_from_fixed_nb_of_points(h=static["h"], nb_of_points=5, dimension=dim)
+            self.p = MarkovChainLevyCopula(levy_copula_model=model, grid=self.g, method=SamplingMethod.INVERSION)
+            self.p.nb_jump_dt = nb
+            self.p.sampling.sample = tuples
+        elif sim == "ctmc":
+            self.g = make_grid(static)
+            self.p = MarkovChainProcess(model=model, method=SamplingMethod.INVERSION, grid=self.g)
+            self.p.nb_jump_dt = nb
+        elif sim == "ccopula":
+            self.g = CTMCUniformGrid.create_from_fixed_nb_of_points(h=static["h"], nb_of_points=5, dimension=dim)
+            self.cp = CouplingProcessLevyCopula(levy_copula_model=model, grid=self.g, method=SamplingMethod.INVERSION)
+        else:
+            self.g = make_grid(static)
+            self.cp = CouplingMarkovChain(model=model, method=SamplingMethod.INVERSION, grid=self.g)
+
+    @staticmethod
+    def product(step):
+        return StubProduct(step["dates"], stochastic=step["stochastic"])
+
+    def initialise(self, step):
+        """`initialisation` with the step's product; on the coupled objects the first one is followed by the level-ups (as in run_sim),
+        later ones re-initialise the object at its level.  Hooks living on the simulation objects are set again (initialisation replaces
+        these objects), hooks on the process objects stay."""
+        sim, prod = self.s["sim"], self.product(step)
+        eps = step["eps"] if step["mode"] == "maxstep" else None
+        ints = lambda size: [int(next(self.flat)) for _ in range(size)]
+        if self.p is not None:
+            self.p.initialisation(prod, max_step_epsilon=eps)
+            if sim == "ctmc":
+                self.p._path_simulation._sampling = ints
+            self.started = True
+            return
+        cp = self.cp
+        cp.initialisation(prod, max_step_epsilon=eps)
+        if not self.started:
+            cp.pre_computation(1, prod)
+            for _ in range(self.s.get("level", 1)):
+                cp.next_level(1, None, prod, max_step_epsilon=eps)
+            self.g = cp.grid
+            cp.fine_process.nb_jump_dt = lambda dt: next(self.counts)
+            if sim == "ccopula":
+                cp.fine_process.sampling.sample = lambda size: [tuple(int(v) for v in next(self.flat)) for _ in range(size)]
+            self.started = True
+        csim = cp._path_coupling_simulation
+        if sim == "coupled":
+            cp.fine_process._path_simulation._sampling = ints
+            orig = csim.coupling_state
+
+            def logged(increment):
+                v = orig(increment)
+                self.coarse_log.append(float(np.asarray(v).reshape(-1)[0]))
+                return v
+            csim.coupling_state = logged
+        else:
+            mangled = "_CouplingLevyCopulaSimulation__coupling_state"
+            orig_nd = getattr(csim, mangled)
+            depth = [0]
+
+            def logged_nd(increment, axis_coordinates=None):
+                depth[0] += 1
+                try:
+                    v = orig_nd(increment, axis_coordinates)
+                finally:
+                    depth[0] -= 1
+                if depth[0] == 0:
+                    self.coarse_log.append([float(x) for x in np.asarray(v, float).reshape(-1)])
+                return v
+            setattr(csim, mangled, logged_nd)
+
+    def batch(self, step):
+        """`pre_computation(mc_paths, product of the step)`, then (unless simulate is False) the first path of the batch"""
+        sim, mode, sc = self.s["sim"], step["mode"], self.sc
+        desc = dict(self.s, **step)
+        m = step.get("mc_paths", 1)
+        sc.d = desc
+        sc.nz, sc.normals, sc.k_interval, sc.uni_calls, sc.cu = 0, [], 0, [], 0
+        # fixed dates: the Poisson counts of all m paths are drawn interval by interval in pre_computation; paths 2..m never jump
+        self.counts = iter([c for ck in step["counts"] for c in [ck] + [0] * (m - 1)] if mode == "fixed" else list(step["counts"]))
+        self.flat = iter([x for iv in step["incs"] for x in iv])
+        self.coarse_log.clear()
+        if sim == "ccopula":
+            self.cp._uniform = CyclicUniform(step["cu"])
+        obj = self.p if self.p is not None else self.cp
+        obj.pre_computation(m, self.product(step))
+        if not step.get("simulate", True):
+            return None
+        if self.p is not None:
+            path = self.p.simulate_one_path()
+        else:
+            path = self.cp.simulate_one_path_with_coupling()
+        if sim == "direct":
+            sig = [float(self.model.diffusion_coefficient())]
+        elif sim == "copula":
+            sig = np.asarray(self.p._path_simulation.diffusion_matrix, float).real.tolist()
+        elif sim == "ctmc":
+            sig = [float(self.p.equivalent_diffusion_coefficient)]
+        elif sim == "ccopula":
+            sig = [np.asarray(self.cp._diffusion_matrix_h, float).real.tolist(), np.asarray(self.cp._diffusion_matrix_2h, float).real.tolist()]
+        else:
+            sig = [float(self.cp.equivalent_diffusion_coefficient_fine), float(self.cp.equivalent_diffusion_coefficient_coarse)]
+        normals = list(sc.normals)
+        if mode == "fixed":                   # all m paths' normals were drawn in pre_computation, path by path: the first path's share
+            normals = normals[:len(normals) // m]
+        return make_out(desc, path, sig, normals, [float(x) for x in step["dates"]], self.g, list(self.coarse_log))
+
+
+def run_history(hdesc):
+    """drives one live object through hdesc["history"]; returns per step None (nothing simulated), ("out", out) or ("raises", text)"""
+    static = {k: hdesc[k] for k in STATIC_KEYS if k in hdesc}
+    res = []
+    with Script(dict(static, **hdesc["history"][0])) as sc:
+        live = Live(static, sc)
+        for step in hdesc["history"]:
+            try:
+                if step["init"]:
+                    live.initialise(step)
+                out = live.batch(step)
+                res.append(None if out is None else ("out", out))
+            except Exception as e:  # noqa
+                res.append(("raises", f"{type(e).__name__}: {e}"[:300]))
+    return res
 
 
 def scaled_rows(out, dts):
@@ -429,7 +608,8 @@ def expected_paths(desc, out):
     return exp_j, exp_d
 
 
-def probe_sim(ctx, desc):
+def sim_cls(desc):
+    """classification of one scripted path (what the known findings are matched on), its number of jumps"""
     sim, mode, dates = desc["sim"], desc["mode"], desc["dates"]
     T = dates[-1]
     n_dates = len(dates) - 1
@@ -442,6 +622,13 @@ def probe_sim(ctx, desc):
                last_gap_exceeds_eps=bool(mode == "maxstep" and last_gap > eps))
     if sim in ("copula", "ccopula"):
         cls["dim"] = desc.get("dim", 2)
+    return cls, njumps
+
+
+def probe_sim(ctx, desc):
+    sim, mode, dates = desc["sim"], desc["mode"], desc["dates"]
+    n_dates = len(dates) - 1
+    cls, njumps = sim_cls(desc)
     probe = "c15.sim"
     try:
         with warnings.catch_warnings():
@@ -454,12 +641,28 @@ def probe_sim(ctx, desc):
     ctx.count(probe, desc, nontrivial=njumps > 0, branch=f"{sim}:{mode}:{min(n_dates, 2)}d")
     if desc.get("warm"):
         ctx.branches["c15.sim:after_an_earlier_path_on_the_same_object"] += 1
+    judge_path(ctx, desc, out, cls)
+
+
+def judge_path(ctx, desc, out, cls):
+    """the property (S) and the tie to the model (C) on ONE simulated path `out` whose product and prescribed variates are `desc`
+    (whatever object produced it: a fresh one in probe_sim, a live one with a history in probe_history)"""
+    sim, mode, dates = desc["sim"], desc["mode"], desc["dates"]
+    probe = "c15.sim"
+    eps = desc.get("eps")
+    n_dates = len(dates) - 1
+    all_times = sorted(dates[k] + (dates[k + 1] - dates[k]) * u for k in range(n_dates) for u in desc["uniforms"][k])
+    last_gap = dates[-1] - (all_times[-1] if all_times else 0.0)
     times, diff, jumps = out["times"], out["diff"], out["jumps"]
     dates = out["dates"]
     T = dates[-1]
     ncomp = len(out["sizes"])
-    # ---- C first (its verdict tells whether a known-faulty output still is the recorded faulty output)
-    mirrors = lean_compare(ctx, desc, out, cls)
+    # ---- C first (its verdict tells whether a known-faulty output still is the recorded faulty output); a path whose times do not
+    # increase (NaN square roots in the scaled increments) or with non-finite values is outside what the wire format can carry: S only
+    if all(a < b for a, b in zip(times, times[1:])) and all(math.isfinite(x) for r in [times] + diff + jumps for x in r):
+        mirrors = lean_compare(ctx, desc, out, cls)
+    else:
+        mirrors = False
     # ---- S: the property
     bad = None
     if len(diff) != ncomp or len(jumps) != ncomp or any(len(r) != len(times) for r in diff + jumps):
@@ -518,6 +721,91 @@ def probe_sim(ctx, desc):
                     ctx.fail("oracle", probe + ".inserted_repeat_previous", desc, {"what": "an inserted point does not repeat the preceding value",
                                                                                   "index": k, "times": times, "jumps": jumps}, cls=cls)
                     return
+
+
+class StepCtx:
+    """ctx for judging one step of a history: failures are recorded with the WHOLE history as input (so that they replay)"""
+
+    def __init__(self, ctx, hdesc, i):
+        self._ctx, self._h, self._i = ctx, hdesc, i
+
+    def __getattr__(self, name):
+        return getattr(self._ctx, name)
+
+    def fail(self, kind, probe, _inp, detail, cls=None, mirrors_model=None):
+        self._ctx.fail(kind, probe, self._h, dict(detail, history_step=self._i), cls=cls, mirrors_model=mirrors_model)
+
+
+def history_kind(hdesc):
+    """which pattern a history exercises (evidence only)"""
+    steps = hdesc["history"]
+    tags = set()
+    for a, b in zip(steps, steps[1:]):
+        if b["init"]:
+            tags.add("reinit_same_mode" if a["mode"] == b["mode"] else "reinit_other_mode")
+            continue
+        ta, tb = a["dates"][-1], b["dates"][-1]
+        if b["mode"] == "maxstep":
+            side = lambda t: "below" if t < b["eps"] else "equal" if t == b["eps"] else "above"
+            tags.add(f"maxstep_maturity_{side(ta)}_then_{side(tb)}_eps")
+        else:
+            tags.add("maturity_" + ("shorter" if tb < ta else "longer" if tb > ta else "same"))
+        if len(a["dates"]) != len(b["dates"]):
+            tags.add("other_number_of_dates")
+        if not a.get("simulate", True):
+            tags.add("batch_without_a_path")
+        if a.get("mc_paths", 1) > 1:
+            tags.add("paths_left_over")
+        if a["stochastic"] != b["stochastic"]:
+            tags.add("other_payoff_dates_type")
+    return sorted(tags)
+
+
+def probe_history(ctx, hdesc):
+    """operation histories on ONE live simulator object: every path it returns is judged by the oracles of probe_sim for the product and
+    the variates of ITS step (cls of that step: the recorded faults are matched as for a fresh object), and compared with the path a
+    freshly constructed and initialised object returns for the same product and variates (run_sim)"""
+    static = {k: hdesc[k] for k in STATIC_KEYS if k in hdesc}
+    steps = hdesc["history"]
+    with warnings.catch_warnings():
+        warnings.simplefilter("ignore")
+        res = run_history(hdesc)
+    judged = [i for i, r in enumerate(res) if r is not None]
+    ctx.count("c15.history", hdesc, nontrivial=len(judged) >= 1 and len(steps) >= 2 and any(sum(s["counts"]) for s in steps),
+              branch=f"{static['sim']}:{'/'.join(dict.fromkeys(s['mode'] for s in steps))}")
+    for t in history_kind(hdesc):
+        ctx.branches["c15.history.pattern:" + t] += 1
+    for i in judged:
+        step = steps[i]
+        desc = dict(static, **step)
+        cls, _ = sim_cls(desc)
+        cls.update(history=True, step=i, reinit=bool(step["init"]))
+        sctx = StepCtx(ctx, hdesc, i)
+        fdesc = {k: v for k, v in desc.items() if k not in ("init", "stochastic", "mc_paths", "simulate")}
+        try:
+            with warnings.catch_warnings():
+                warnings.simplefilter("ignore")
+                fresh = ("out", run_sim(fdesc))
+        except Exception as e:  # noqa
+            fresh = ("raises", f"{type(e).__name__}: {e}"[:300])
+        kind, out = res[i]
+        if kind == "raises":
+            # a recorded raise of the fresh object (ragged slices, copula with several dates) is the same finding here; a raise of the
+            # live object alone is never one of the recorded ones
+            sctx.fail("oracle", "c15.sim.raises", None, {"what": "the live object raised in this step of the history", "error": out,
+                                                         "fresh_object": fresh[1] if fresh[0] == "raises" else "returns a path"},
+                      cls=cls, mirrors_model=None if fresh[0] == "raises" else False)
+            continue
+        ctx.branches[f"c15.history.step:{static['sim']}:{step['mode']}:{'init' if step['init'] else 'pre_computation_only'}"] += 1
+        judge_path(sctx, desc, out, cls)
+        if fresh[0] == "raises":
+            sctx.fail("corr", "c15.history.fresh", None, {"name": "the live object returns a path where a fresh object raises", "fresh": fresh[1]}, cls=cls)
+        elif any(out[k] != fresh[1][k] for k in ("times", "jumps", "diff", "shape")):
+            sctx.fail("corr", "c15.history.fresh", None,
+                      {"name": "path of the live object vs path of a freshly constructed and initialised object, same product, same prescribed "
+                               "variates (a path is a function of the current product and the variates of its batch)",
+                       "live_times": out["times"], "fresh_times": fresh[1]["times"], "live_jumps": out["jumps"], "fresh_jumps": fresh[1]["jumps"]},
+                      cls=cls)
 
 
 def lean_compare(ctx, desc, out, cls):
@@ -635,11 +923,13 @@ def domain_predicates(ctx, desc, out):
     return res
 
 
-def gen_sim(rng, sim=None, mode=None, n_dates=None):
+def gen_sim(rng, sim=None, mode=None, n_dates=None, fixed=None, T=None, eps=None, warm=True):
+    """one scripted path. fixed: the simulator-level parameters (family, params, h, dim, copula) of an existing object, T / eps: a
+    prescribed maturity / maximum step, warm=False: no earlier path (used by gen_history; the defaults leave the random stream as is)"""
     sim = sim or rng.choice(["direct", "ctmc", "coupled", "ccopula"])
     mode = mode or rng.choice(["fixed", "jump_times", "maxstep"])
     n_dates = n_dates or rng.choice([1, 1, 2, 2, 3, 4, 5, 6])
-    T = rng.choice([0.5, 1.0, 2.0])
+    T = rng.choice([0.5, 1.0, 2.0]) if T is None else T
     cuts = sorted(rng.sample(range(1, 32), n_dates - 1))
     dates = [0.0] + [T * c / 32 for c in cuts] + [T]
     style = rng.random()
@@ -651,16 +941,22 @@ def gen_sim(rng, sim=None, mode=None, n_dates=None):
             counts.append(counts[0] if counts else rng.randint(1, 3))        # equal counts: the only shape the coupled jump-time code accepts
         else:
             counts.append(rng.choice([0, 0, 1, 1, 2, 3]))
-    fam = rng.choice(["hem", "merton"])
-    params = (dict(sigma=rng.choice([0.125, 0.25, 0.2]), p=0.4, eta1=10.0, eta2=5.0, intensity=3.0) if fam == "hem"
-              else dict(sigma=rng.choice([0.125, 0.25, 0.2]), sigma_j=0.1, mu_j=0.05, intensity=3.0))
-    h = rng.choice([0.125, 0.25])
+    if fixed:
+        fam, params, h = fixed["family"], fixed["params"], fixed["h"]
+    else:
+        fam = rng.choice(["hem", "merton"])
+        params = (dict(sigma=rng.choice([0.125, 0.25, 0.2]), p=0.4, eta1=10.0, eta2=5.0, intensity=3.0) if fam == "hem"
+                  else dict(sigma=rng.choice([0.125, 0.25, 0.2]), sigma_j=0.1, mu_j=0.05, intensity=3.0))
+        h = rng.choice([0.125, 0.25])
     if sim == "direct":
         incs = [[rng.randint(-16, 16) / 16 for _ in range(c)] for c in counts]
     elif sim in ("copula", "ccopula"):
         import itertools
-        dim = rng.choice([2, 2, 3])
-        cop = rng.choice(["independent", "clayton"]) if dim == 2 else "independent"
+        if fixed:
+            dim, cop = fixed.get("dim", 2), fixed.get("copula", "independent")
+        else:
+            dim = rng.choice([2, 2, 3])
+            cop = rng.choice(["independent", "clayton"]) if dim == 2 else "independent"
         reach = 2 if sim == "copula" else 4          # the coupled simulator runs on the grid refined once: 9 points per axis
         if sim == "ccopula" and cop == "independent":
             # the coarse increment comes from the real coupling: only states of positive rate (on the axes for independent components)
@@ -678,8 +974,8 @@ def gen_sim(rng, sim=None, mode=None, n_dates=None):
         desc["copula"], desc["dim"] = cop, dim
         desc["cu"] = [rng.randint(1, 63) / 64 for _ in range(8)]
     if mode == "maxstep":
-        desc["eps"] = rng.choice([T / 32, T / 16, 3 * T / 32, T / 8, T / 4, T / 2, T, 2 * T])
-    if rng.random() < 0.3:
+        desc["eps"] = rng.choice([T / 32, T / 16, 3 * T / 32, T / 8, T / 4, T / 2, T, 2 * T]) if eps is None else eps
+    if warm and rng.random() < 0.3:
         # an earlier, busy path on the same simulator object (every interval jumps): what the scripted path returns must not
         # depend on it
         cw = rng.choice([1, 2, 3])
@@ -693,6 +989,83 @@ def gen_sim(rng, sim=None, mode=None, n_dates=None):
         wu = [[u / 64 for u in rng.sample(range(1, 64), cw)] for _ in wc] if mode != "fixed" else [[] for _ in wc]
         desc["warm"] = dict(counts=wc, incs=wi, uniforms=wu)
     return desc
+
+
+MODES = ("fixed", "jump_times", "maxstep")
+SIMS = ("direct", "ctmc", "coupled", "copula", "ccopula")
+
+
+def gen_history(rng, sim):
+    """a random history on one object: 2..4 steps; a step re-initialises (any mode, any epsilon) with probability 0.3, otherwise only
+    `pre_computation` with ANOTHER product: other maturity (maximum step: below / equal / above epsilon), other number of dates, other
+    payoff-dates type where the mode ignores it; 1..3 pre-computed paths, of which one or none is simulated"""
+    first = gen_sim(rng, sim=sim, mode="fixed", n_dates=1, warm=False)
+    static = {k: first[k] for k in STATIC_KEYS if k in first}
+    steps, n = [], rng.choice([2, 2, 3, 3, 4])
+    mode = eps = None
+    for i in range(n):
+        init = i == 0 or rng.random() < 0.3
+        if init:
+            mode = rng.choice(MODES + ("maxstep",))
+            eps = rng.choice([0.125, 0.25, 0.5]) if mode == "maxstep" else None
+        T = rng.choice([eps / 2, eps, 2 * eps, 4 * eps, 8 * eps]) if mode == "maxstep" else rng.choice([0.25, 0.5, 1.0, 2.0])
+        nd = 1 if sim == "copula" else rng.choice([1, 1, 2, 3] if sim in ("coupled", "ccopula") else [1, 2, 3, 5])
+        d = gen_sim(rng, sim=sim, mode=mode, n_dates=nd, fixed=static, T=T, eps=eps, warm=False)
+        step = {k: d[k] for k in ("mode", "dates", "counts", "incs", "uniforms", "zseed", "cu", "eps") if k in d}
+        step.update(init=init, stochastic=mode == "jump_times" or (mode == "maxstep" and rng.random() < 0.5),
+                    mc_paths=rng.choice([1, 1, 2, 3]), simulate=i == n - 1 or rng.random() < 0.7)
+        steps.append(step)
+    return dict(static, history=steps)
+
+
+def directed_step(sim, mode, T, nd, eps=None, init=False, simulate=True, mc_paths=1, stochastic=None):
+    """a product with maturity T and nd dates whose jumps need refinement when T > eps and whose last gap is T/8 (inside the domain
+    of the max-step equivalences for T <= 8 eps): one date - jumps at T/2 and 7T/8; two dates - one jump per interval, at T/4 and 7T/8"""
+    one = [[1, 0]] if sim in ("copula", "ccopula") else [1 if sim != "direct" else 0.5]
+    two = [[1, 0], [0, -2]] if sim in ("copula", "ccopula") else ([1, -2] if sim != "direct" else [0.5, -0.25])
+    if nd == 1:
+        dates, counts, incs, uni = [0.0, T], [2], [two], [[0.5, 0.875]]
+    else:
+        dates, counts, incs, uni = [0.0, T / 2, T], [1, 1], [one, one], [[0.5], [0.75]]
+    step = dict(mode=mode, dates=dates, counts=counts, incs=incs, uniforms=uni if mode != "fixed" else [[] for _ in counts], zseed=3,
+                cu=[0.5, 0.25, 0.75], init=init, simulate=simulate, mc_paths=mc_paths,
+                stochastic=(mode != "fixed") if stochastic is None else stochastic)
+    if mode == "maxstep":
+        step["eps"] = eps
+    return step
+
+
+def directed_histories(sim):
+    """maximum step: every ordered pair of maturities below / equal / above epsilon under one initialisation, with and without a path
+    in between, one and two dates; fixed dates / jump times: longer and shorter maturities, more and fewer dates; every ordered pair
+    of modes with a re-initialisation in between"""
+    hem = dict(sigma=0.25, p=0.4, eta1=10.0, eta2=5.0, intensity=3.0)
+    static = dict(sim=sim, family="hem", params=hem, h=0.125)
+    if sim in ("copula", "ccopula"):
+        static.update(dim=2, copula="independent")
+    nds = (1,) if sim == "copula" else (1, 2)
+    eps = 0.25
+    res = []
+    for k, (ta, tb) in enumerate((a, b) for a in (0.125, 0.25, 1.0) for b in (0.125, 0.25, 1.0)):
+        for between in (True, False):
+            na, nb = nds[k % len(nds)], nds[(k + between) % len(nds)]
+            res.append(dict(static, history=[
+                directed_step(sim, "maxstep", ta, na, eps, init=True, simulate=between, mc_paths=2, stochastic=bool(k % 2)),
+                directed_step(sim, "maxstep", tb, nb, eps, stochastic=not k % 2)]))
+    # three batches: the closure of the middle (short) product must not survive either
+    res.append(dict(static, history=[directed_step(sim, "maxstep", 1.0, 1, eps, init=True), directed_step(sim, "maxstep", 0.125, 1, eps),
+                                     directed_step(sim, "maxstep", 2.0, nds[-1], eps)]))
+    for mode in ("fixed", "jump_times"):
+        for (ta, na), (tb, nb) in (((0.25, 1), (1.0, nds[-1])), ((1.0, nds[-1]), (0.25, 1)), ((1.0, 1), (1.0, nds[-1])), ((0.5, nds[-1]), (2.0, 1))):
+            for between in (True, False):
+                res.append(dict(static, history=[directed_step(sim, mode, ta, na, init=True, simulate=between, mc_paths=3),
+                                                 directed_step(sim, mode, tb, nb)]))
+    for ma in MODES:
+        for mb in MODES:
+            res.append(dict(static, history=[directed_step(sim, ma, 0.25, 1, eps, init=True, mc_paths=2),
+                                             directed_step(sim, mb, 1.0, nds[-1], eps / 2 if ma == "maxstep" else eps, init=True),
+                                             directed_step(sim, mb, 0.5, 1, eps / 2 if ma == "maxstep" else eps)]))
+    return res
 
 
 def run(ctx):
@@ -745,6 +1118,14 @@ def run(ctx):
         probe_sim(ctx, dict(eb, mode="maxstep", eps=1024.0, dates=[0.0, 0.5, 1.0], counts=[1, 1], incs=[one, one], uniforms=[[0.5], [0.5]]))
         probe_sim(ctx, dict(eb, mode="maxstep", eps=0.25, dates=[0.0, 1.0], counts=[1], incs=[one], uniforms=[[0.75]]))
         probe_sim(ctx, dict(eb, mode="maxstep", eps=0.25, dates=[0.0, 1.0], counts=[2], incs=[two], uniforms=[[0.5, 0.875]]))
+    # operation histories on ONE live object of every simulator: initialisation once, then pre_computation with DIFFERENT products
+    # (maturity below / equal / above epsilon in every order, other numbers of dates, batches without a path, paths left over),
+    # re-initialisations in another mode / with another epsilon; every returned path judged for its own product and variates
+    for sim in SIMS:
+        for h in directed_histories(sim):
+            probe_history(ctx, h)
+        for _ in range(ctx.n(60 if sim in ("direct", "ctmc", "coupled") else 25, 800 if sim in ("direct", "ctmc", "coupled") else 300)):
+            probe_history(ctx, gen_history(rng, sim))
     probe_equal_dates(ctx)
 
 
@@ -774,6 +1155,8 @@ def replay(ctx, rec):
     p, d = rec["probe"], rec["input"]
     if p.startswith("c15.finer"):
         probe_finer(ctx, d)
+    elif "history" in d:
+        probe_history(ctx, d)
     elif any(a == b for a, b in zip(d["dates"], d["dates"][1:])):
         equal_dates_one(ctx, d)
     else:
@@ -785,3 +1168,4 @@ def search(ctx):
     for _ in range(600):
         probe_finer(ctx, gen_finer(rng, rng.choice(["direct", "coupled"])))
         probe_sim(ctx, gen_sim(rng))
+        probe_history(ctx, gen_history(rng, rng.choice(SIMS)))
